@@ -33,13 +33,18 @@ impl InitLoadUnverified {
         }
     }
 
-    fn find_unverified_block_hashes(&self, check_unverified_number: u64) -> Vec<packed::Byte32> {
+    /// Returns whether any block is stored at the given number, and the hashes of those which
+    /// are not verified yet.
+    fn find_unverified_block_hashes(
+        &self,
+        check_unverified_number: u64,
+    ) -> (bool, Vec<packed::Byte32>) {
         let pack_number: packed::Uint64 = check_unverified_number.into();
         let prefix = pack_number.as_slice();
 
         // If a block has `COLUMN_NUMBER_HASH` but not `BlockExt`,
         // it indicates an unverified block inserted during the last shutdown.
-        let unverified_hashes: Vec<packed::Byte32> = self
+        let stored_hashes: Vec<packed::Byte32> = self
             .shared
             .store()
             .get_iter(
@@ -53,9 +58,13 @@ impl InitLoadUnverified {
 
                 reader.block_hash().to_entity()
             })
+            .collect::<Vec<packed::Byte32>>();
+        let any_stored = !stored_hashes.is_empty();
+        let unverified_hashes = stored_hashes
+            .into_iter()
             .filter(|hash| self.shared.store().get_block_ext(hash).is_none())
             .collect::<Vec<packed::Byte32>>();
-        unverified_hashes
+        (any_stored, unverified_hashes)
     }
 
     pub(crate) fn start(&self) {
@@ -90,10 +99,12 @@ impl InitLoadUnverified {
             }
 
             // start checking `check_unverified_number` have COLUMN_NUMBER_HASH value in db?
-            let unverified_hashes: Vec<packed::Byte32> =
+            let (any_stored, unverified_hashes) =
                 self.find_unverified_block_hashes(check_unverified_number);
 
-            if check_unverified_number > tip_number && unverified_hashes.is_empty() {
+            // Keep going while blocks are stored at this number: an unverified chain may
+            // continue above a block which has already been processed.
+            if check_unverified_number > tip_number && !any_stored {
                 info!(
                     "no unverified blocks found after tip, current tip: {}-{}",
                     tip_number,
